@@ -40,6 +40,9 @@ MAX_LIST_LEN = 3
 MAX_DEPTH = 3                          # of every enumerated expression (leaf = depth 1)
 BFS_DEPTH = {"quick": 3, "thorough": 4}
 BFS_DEPTH_ARRAYS = {"quick": 3, "thorough": 3}      # the mutable-value environments
+# "wide" dimension: one n-ary node over WIDTH distinct shared calls (sizes around powers of two)
+WIDE_WIDTHS = {"quick": (2, 129, 300), "thorough": (2, 65, 129, 257, 300, 513)}
+LIVE_DEPTH = 3                                       # histories over two instances alive at once
 MINIMISE_BUDGET = 400                  # candidate inputs tried per failing list
 BOX = (                                # (x, y): positive, so no expression of the pool raises
     (2, 3), (3, 5), (Fraction(1, 2), Fraction(3, 2)), (Fraction(5, 2), 2), (3, Fraction(1, 3)))
@@ -951,6 +954,111 @@ def canon_b(hist):
     return tuple((h, tuple(xs)) for h, xs in segs)
 
 
+# {{{ wide expressions, several evaluator instances alive at the same time
+
+def wide_inputs(n):
+    """[f(x+0) + ... + f(x+n-1) + f(x+0),  f(x+0) * ... * f(x+n-1)]"""
+    terms = [Call(F, Sum(X, C(i))) for i in range(n)]
+    return [("Sum", T(*terms, terms[0])), ("Product", T(*terms))], terms
+
+
+WIDE_LABELS = ("sum-of-all-then-first", "product-of-all", "first-wrapper")
+
+
+def live_kind_pairs(tier):
+    if tier == "quick":
+        return [("plain", "plain"), ("plain", "cached"), ("legacy", "mixin")]
+    return [(a, b) for i, a in enumerate(KINDS_B) for b in KINDS_B[i:]]
+
+
+def explore_live(width, kinds, res):
+    """BFS over histories on TWO evaluator instances that stay alive: menu = evaluate wide
+    expression i on instance j.  Every transition replays its history on two fresh instances and
+    judges the instance it touched against refsem and the once-per-wrapper model."""
+    import pymbolic.primitives as p
+    inputs, terms = wide_inputs(width)
+    specs = [*inputs, terms[0]]
+    tagged = run_tagger("tag", [build(s) for s in inputs])
+    exprs = [*tagged, build(CSE(terms[0]))]
+    especs = [to_spec(e) for e in exprs]
+    keymemo = {}
+
+    def key_of(e):
+        k = keymemo.get(id(e))
+        if k is None:
+            k = keymemo[id(e)] = to_spec(e)
+        return k
+
+    def env_of(j, counter):
+        return make_env(specs, ENVS_B[1 + j], counter)
+
+    want_memo, model_memo = {}, {}
+
+    def want_of(i, j):
+        if (i, j) not in want_memo:
+            want_memo[i, j] = refsem.outcome(refsem.evaluate, specs[i], env_of(j, Counter()))
+        return want_memo[i, j]
+
+    def model_of(j, seq):
+        if (j, seq) not in model_memo:
+            rcounter = Counter()
+            rlog = []
+            ref = refsem.Ref(env_of(j, rcounter), hook=lambda s, v: rlog.append(s),
+                             cse_once=True)
+            for i in seq:
+                refsem.outcome(ref, especs[i])
+            model_memo[j, seq] = (Multiset(rlog),
+                                  Multiset((f, freeze(a)) for f, a, _ in rcounter.calls))
+        return model_memo[j, seq]
+
+    menu = [(i, j) for i in range(len(exprs)) for j in range(len(kinds))]
+
+    def fmt(h):
+        return "[" + "; ".join(f"{WIDE_LABELS[i]}@{kinds[j]}#{j}" for i, j in h) + "]"
+
+    def step(hist):
+        counters = [Counter() for _ in kinds]
+        insts = []
+        for j, kind in enumerate(kinds):                # all instances alive from the start
+            inst = instrumented(kind)(env_of(j, counters[j]))
+            inst.vf_log = []
+            insts.append(inst)
+        seqs = [[] for _ in kinds]
+        for i, j in hist:
+            got = refsem.outcome(insts[j], exprs[i])
+            seqs[j].append(i)
+            res.evals += 1
+        want = want_of(i, j)
+        model, cm = model_of(j, tuple(seqs[j]))
+        if want[0] != "ok" or got[0] != "ok" or not same_value(want[1], got[1]):
+            return (("value", f"{fmt(hist)}: the last evaluation returns "
+                     f"{refsem.show_outcome(got)[:80]}; reference "
+                     f"{refsem.show_outcome(want)[:80]}"), None)
+        impl = Multiset(key_of(e) for e in insts[j].vf_log if isinstance(e, p.Expression))
+        for k in sorted(impl, key=repr):
+            if k[0] in LISTED and impl[k] > model[k]:
+                return (("recomputed", f"in {fmt(hist)} instance #{j} computes {show(k)[:120]} "
+                         f"{impl[k]} times; computing each distinct wrapper's child once needs "
+                         f"{model[k]}"), None)
+        ci = Multiset((n, freeze(a)) for n, a, _ in counters[j].calls)
+        if ci - cm:
+            extra = sorted((ci - cm).items(), key=repr)[:3]
+            return (("recomputed-call", f"in {fmt(hist)} instance #{j} calls the environment's "
+                     f"functions more often than the once-only model, e.g. {extra}"), None)
+        return None, repr(got[1])[:40]
+
+    ex = bfs(menu, step, LIVE_DEPTH)
+    res.count("states", ex.states)
+    res.count("transitions", ex.transitions)
+    res.count("histories", ex.transitions)
+    res.count("max_depth", ex.max_depth)
+    res.keys.extend(("live", width, kinds, n) for n in range(ex.states))
+    for hist, kind, detail in ex.violations:
+        res.fail(f"live:{kind}", f"live:{kind}|width={width}|{fmt(hist)}", detail)
+
+# }}}
+
+
 def freeze(v):
     if isinstance(v, np.ndarray):
         return ("nd", tuple(v.tolist()))
@@ -1110,7 +1218,12 @@ class C12(Check):
         "4 evaluator kinds: stock plain, stock memoizing, a user subclass of EvaluationMapper "
         "whose __init__ only stores the context, a minimal evaluator built on "
         "CSECachingMapperMixin alone; depth 3 quick, 4 thorough), every transition replayed from scratch and judged "
-        "against refsem and a once-per-wrapper reference model. Non-trivial: a list with at "
+        "against refsem and a once-per-wrapper reference model. Wide dimension: for widths 2, "
+        "129, 300 (thorough also 65, 257, 513) the list [f(x+0)+...+f(x+n-1)+f(x+0), "
+        "f(x+0)*...*f(x+n-1)] goes through Engine A, and its tagged outputs plus the first wrapper "
+        "alone are explored by a BFS (depth 3) over histories on TWO evaluator instances that "
+        "stay alive (menu = expression i on instance j; kinds of the pair: 3 quick / all 10 "
+        "thorough). Non-trivial: a list with at "
         "least one repeated operation or pre-existing wrapper, any helper case, any history "
         "state; distinct = distinct (family, input).")
     assumptions = [
@@ -1181,13 +1294,26 @@ class C12(Check):
                         for kind in KINDS_B:
                             yield ("B", name, (i, kind), envset)
 
-        return [("histories", histories), ("helpers", helpers), ("wrapped", wrapped),
+        def wide():
+            for n in WIDE_WIDTHS[tier]:
+                yield ("L", tuple(wide_inputs(n)[0]))
+
+        def live():
+            for n in WIDE_WIDTHS[tier]:
+                for kinds in live_kind_pairs(tier):
+                    yield ("W", n, kinds)
+
+        return [("live", live), ("wide", wide),
+                ("histories", histories), ("helpers", helpers), ("wrapped", wrapped),
                 ("pairs", lists), ("triples", triples)]
 
     def check_item(self, family, item, tier):
         r = Res()
         if item[0] == "H":
             check_helper(item, r)
+            return r
+        if item[0] == "W":
+            explore_live(item[1], tuple(item[2]), r)
             return r
         if item[0] == "B":
             envset = item[3] if len(item) > 3 else "numbers"
